@@ -265,6 +265,24 @@ CO_ERR COSdoDownloadExpedited(CO_SDO *srv);
 */
 void COSdoAbort(CO_SDO *srv, uint32_t err);
 
+/*! \brief  ABORT A REFUSED DOWNLOAD
+*
+*    This function generates the SDO abort for a value the object type has
+*    rejected: the abort code requested by the type function (see
+*    COObjTypeUserSDOAbort()), otherwise the code which belongs to the
+*    error of the type function, otherwise the given code.
+*
+* \param srv
+*    Pointer to SDO server object
+*
+* \param err
+*    The error code of the object write function
+*
+* \param other
+*    The abort code for all errors without a specific abort code
+*/
+void COSdoAbortWrite(CO_SDO *srv, CO_ERR err, uint32_t other);
+
 /*! \brief  INIT SEGMENTED UPLOAD
 *
 *    This function generates the response for 'Initiate SDO Upload Protocol'.
